@@ -19,7 +19,9 @@ U+0020") with negligible probability, so this generator walks the whole lattice:
     hebrew, thai, hangul, indic, khmer, myanmar, use) plus the script of c's own block; the script is given explicitly,
     so every character meets every shaper (a cmap-only font has no GSUB script, the syllabic shapers are selected
     by the script alone);
-  * contexts: c alone, c + mark (c becomes the base of a multi-character cluster), base + c, base + c + mark.
+  * contexts: c alone, c + mark (c becomes the base of a multi-character cluster), base + c, base + c + mark, and the
+    same after a character the font does not map (the first round's fast path over leading mapped characters has
+    ended there); for C16 also top-to-bottom.
 
 Oracles (all on shape(), none consults the model):
   conservation  (C08; premise: the font maps every character of the text)  the characters recovered from the glyphs of
@@ -200,6 +202,22 @@ class Env:
             self.deviates[s] = {c for c in set(base) | set(t) if base.get(c) != t.get(c)}
         # the crate's own decomposition table: the lattice is walked over characters both sides know
         self.crate_dec = set(base)
+        # modified combining classes of the marks that occur as second components (`norm props`): the equivalent-twin
+        # oracle leaves out characters whose decomposition is not in the order of the MODIFIED classes (the property
+        # excludes remapped classes: Hebrew dagesh / shin dot, ...)
+        seconds = sorted({x for a, b in RD().values() for x in (a, b) if x and is_mark(x)})
+        outs = vlib.run_lines(shim, [f"norm props {b}" for b in seconds], nproc=1)
+        self.mcc = {b: int(o.split()[2]) for b, o in zip(seconds, outs)}
+
+    def in_modified_order(self, c):
+        """the marks of NFD(c) are in non-decreasing order of their modified combining classes (class 0 separates)"""
+        last = 0
+        for x in nfd([c]):
+            v = self.mcc.get(x, 0)
+            if v and v < last:
+                return False
+            last = v
+        return True
 
     def mode(self, tag):
         return MODE.get(self.shaper.get(tag, "?"))
@@ -255,6 +273,7 @@ def build_font(cps):
 
 DC = 0x25CC
 HYPHENS = (0x2010, 0x2011)
+UNMAPPED = 0xE000          # a private-use character no font of the lattice maps
 
 
 def relevant(c):
@@ -346,7 +365,10 @@ def contexts(c, tag):
     clo = closure(c)
     m = next((x for x in marks + (0x0301, 0x0323, 0x0316) if x not in clo), 0x0316)
     b = base if base not in clo else 0x63
-    return m, b, [("alone", [c]), ("c+mark", [c, m]), ("base+c", [b, c]), ("base+c+mark", [b, c, m])]
+    return m, b, [("alone", [c]), ("c+mark", [c, m]), ("base+c", [b, c]), ("base+c+mark", [b, c, m]),
+                  # after a character the font does NOT map: the first round's fast path (leading mapped characters are
+                  # copied at once) has ended, c goes through decompose_current_character like the unmapped one
+                  ("unmapped+c", [UNMAPPED, c]), ("unmapped+c+mark", [UNMAPPED, c, m])]
 
 
 def parse_reply(o):
@@ -361,7 +383,7 @@ def parse_reply(o):
     return out
 
 
-def walk(env, r, quick, want, keep, bulk_quick=300, scripts_bulk=2):
+def walk(env, r, quick, want, keep, bulk_quick=300, scripts_bulk=2, dirs=("-",), twin=None):
     """Builds the groups ([font line, shape lines ...]) and their meta data.
     keep(c, S, text) -> bool: which (font, text) combinations the caller's oracles can judge at all."""
     groups, meta = [], []
@@ -395,8 +417,17 @@ def walk(env, r, quick, want, keep, bulk_quick=300, scripts_bulk=2):
                     if not keep(c, fchars, text, tag):
                         continue
                     tt = ",".join(f"{x:x}:{i}" for i, x in enumerate(text))
-                    lines.append(f"shape F - {tag} - 0 0 - - - {tt}")
-                    ms.append((tag, name, text))
+                    for d in dirs:
+                        # "-": the script's own horizontal direction; "t": top to bottom (context name gets "@t")
+                        if d != "-" and (cls == "bulk" or name.startswith("base")):
+                            continue
+                        lines.append(f"shape F {d} {tag} - 0 0 - - - {tt}")
+                        ms.append((tag, name if d == "-" else f"{name}@{d}", text))
+                        tw = twin(env, c, fchars, text, tag) if twin and d == "-" else None
+                        if tw:
+                            # the canonically equivalent twin, judged against the line before it
+                            lines.append(f"shape F {d} {tag} - 0 0 - - - " + ",".join(f"{x:x}:{k}" for x, k in zip(*tw)))
+                            ms.append((tag, "twin", tw[0]))
             if not lines:
                 continue
             data, cmap = build_font(fchars)
@@ -420,20 +451,24 @@ def conserved(text, out, cmap, rtl):
 
 
 def in_multi(text, i):
-    """text[i] is the base of a multi-character cluster: the last non-mark before a run of marks"""
-    return i + 1 < len(text) and is_mark(text[i + 1])
+    """text[i] belongs to a multi-character cluster of the first normalization round: it is directly followed by a mark,
+    or it is a mark that is not the first character of the text (a leading mark alone is a simple cluster)"""
+    return (i + 1 < len(text) and is_mark(text[i + 1])) or (i > 0 and is_mark(text[i]))
 
 
 def prefers_decomposition(mode, text, i, S):
     """the specification of `decompose_current_character`'s choice for a MAPPED character: the decomposition is preferred
     iff the mode does not short-circuit here and the font supports a candidate.  Modes 0 / 2 short-circuit on simple
     clusters; only mode 0 does on the base of a multi-character cluster; mode 3 never does."""
-    multi = in_multi(text, i) or is_mark(text[i])
+    multi = in_multi(text, i)
     short = mode == 0 or (mode == 2 and not multi)
     return (not short) and has_candidate(text[i], S)
 
 
-def own_glyph_deviation(mode, text, out, cmap, adv=None):
+ASCENDER, DESCENDER = 800, -200      # hhea of build_font
+
+
+def own_glyph_deviation(mode, text, out, cmap, adv=None, vertical=False):
     """every character of the text that is neither a mark nor default-ignorable, that the font maps and whose
     decomposition is not preferred: exactly one output glyph per occurrence is its cmap glyph, with the glyph's advance
     and zero offsets (horizontal text)"""
@@ -449,10 +484,13 @@ def own_glyph_deviation(mode, text, out, cmap, adv=None):
         if len(hits) < 1 or len(hits) > 1 + others:
             return {"kind": "mapped character not rendered with its own glyph", "char": f"U+{x:04X}", "index": i,
                     "cmap_glyph": g, "occurrences_in_output": len(hits)}
+        # horizontal: hmtx advance, no offsets; vertical (no vmtx / VORG / outlines): y_advance -(ascender - descender),
+        # the origin moved from the top centre to the horizontal origin
+        want = (0, -(ASCENDER - DESCENDER), -(adv(g) // 2), -ASCENDER) if vertical else (adv(g), 0, 0, 0)
         for h in hits:
-            if (h[2], h[3], h[4], h[5]) != (adv(g), 0, 0, 0):
+            if (h[2], h[3], h[4], h[5]) != want:
                 return {"kind": "own glyph with foreign metrics", "char": f"U+{x:04X}", "index": i, "cmap_glyph": g,
-                        "expected": [adv(g), 0, 0, 0], "observed": list(h[2:])}
+                        "expected": list(want), "observed": list(h[2:])}
     return None
 
 
@@ -476,6 +514,43 @@ def describe(d):
     return k
 
 
+def decomposed_twin(env, c, S, text, tag):
+    """C09, "canonically equivalent strings produce the same glyphs" where the normalizer MUST decompose c all the way:
+    the text with c replaced by NFD(c) (the pieces carry c's cluster value), or None when the two may legitimately
+    differ.  The font maps NFD(c), and
+      * c sits in a multi-character cluster and the mode is not NONE (no short circuit there: the deepest candidate, which
+        is the full decomposition, is taken whether or not the font maps c or an intermediate), or
+      * c is a simple cluster / the mode is NONE, the font maps neither c nor any intermediate of the chain (the
+        shallowest candidate is the full decomposition too; a mapped c would short-circuit, or — in the modes that never
+        do — be decomposed without a recomposition round following, since a text of simple clusters skips rounds 2 and 3).
+    After the first round both buffers hold the same records, so everything downstream must agree."""
+    if not dec1(c) or text.count(c) != 1:
+        return None
+    full = nfd([c])
+    if not all(x in S for x in full):
+        return None
+    sh = env.shaper[tag]
+    if c in env.deviates.get(sh, ()):
+        return None
+    mode = env.mode(tag)
+    i = text.index(c)
+    if not env.in_modified_order(c):
+        return None               # remapped classes: a text of simple clusters skips the reorder round, the twin does not
+    if not (in_multi(text, i) and mode != 0):
+        if any(x in S for x in chain(c)[:-1]):
+            return None
+    if any(x not in S for x in text if x != c):
+        return None
+    cl = []
+    tw = []
+    for j, x in enumerate(text):
+        if x == c:
+            tw += full; cl += [j] * len(full)
+        else:
+            tw.append(x); cl.append(j)
+    return tw, cl
+
+
 # ---------------------------------------------------------------------------------------------------------------
 # running the walk and reporting (the three checks differ in `want`, `keep` and `judge` only)
 
@@ -495,7 +570,7 @@ def judge_conservation(env, tag, name, text, out, cmap):
     d = conserved(text, out, cmap, tag in RTL)
     if d:
         return ("conservation" if all_mapped else "decomposition-used", d)
-    if not all_mapped and name == "alone" and env.shaper[tag] == "default":
+    if not all_mapped and name == "alone" and env.shaper[tag] == "default":   # (horizontal, the script's own direction)
         c = text[0]
         if not any(x in S for x in chain(c)[:-1]):
             # nothing between c and its full decomposition is mapped: exactly the glyphs of NFD(c)
@@ -509,20 +584,40 @@ def judge_conservation(env, tag, name, text, out, cmap):
     return None
 
 
-def search(ctx, shim, env, r, want, keep, judges, rule, bulk_quick=300):
+def search(ctx, shim, env, r, want, keep, judges, rule, bulk_quick=300, dirs=("-",), twin=None):
     """judges: [fn(env, tag, name, text, out, cmap) -> None | (oracle, deviation)]"""
-    groups, meta, st = walk(env, r, ctx.quick, want, keep, bulk_quick=bulk_quick)
+    groups, meta, st = walk(env, r, ctx.quick, want, keep, bulk_quick=bulk_quick, dirs=dirs, twin=twin)
     outs = vlib.run_groups(shim, groups, timeout=1200)
-    n = nbad = 0
+    n = nbad = ntwin = 0
     per, dist, reported = {}, {}, {}
     for (c, cls, S, cmap, ms), o, g in zip(meta, outs, groups):
         if not o or o[0] != "ok":
             ctx.violation(f"generated cmap-only font rejected: {o[0] if o else 'no reply'}",
                           {"stage": "search", "stream": STREAM, "font_line": g[0][:400]})
             continue
+        prev = None
         for (tag, name, text), reply, req in zip(ms, o[1:], g[1:]):
             n += 1
             sh = env.shaper[tag]
+            if name == "twin":
+                ntwin += 1
+                ptext, preply, preq = prev
+                if parse_reply(reply) is None or parse_reply(reply) != parse_reply(preply):
+                    nbad += 1
+                    key = ("equivalent-twin", sh)
+                    per[f"equivalent-twin/{sh}"] = per.get(f"equivalent-twin/{sh}", 0) + 1
+                    reported[key] = reported.get(key, 0) + 1
+                    if reported[key] == 1 and sum(1 for v in reported.values() if v) <= 6:
+                        ctx.violation(f"{STREAM}: equivalent-twin: <{fmt(ptext)}> and the canonically equivalent <{fmt(text)}> shape "
+                                      f"differently under the {sh} shaper (script {tag}) on a cmap-only font that maps exactly "
+                                      f"{{{fmt(sorted(cmap))}}}: {preply[:120]} vs {reply[:120]}",
+                                      {"stage": "search", "stream": STREAM, "oracle": "equivalent-twin", "font_line": g[0],
+                                       "request": preq, "request2": req, "text": [f"{x:04X}" for x in ptext],
+                                       "text2": [f"{x:04X}" for x in text], "font_maps": [f"{x:04X}" for x in sorted(cmap)],
+                                       "script": tag, "shaper": sh, "character": f"{c:04X}", "observed": preply,
+                                       "observed2": reply})
+                continue
+            prev = (text, reply, req)
             for k in (f"shaper:{sh}", f"context:{name}", f"class:{cls}",
                       "font:" + ("maps-c" if c in cmap else "lacks-c") + ("+decomposition" if renderable(c, set(cmap) - {c}) else "")):
                 dist[k] = dist.get(k, 0) + 1
@@ -551,7 +646,7 @@ def search(ctx, shim, env, r, want, keep, judges, rule, bulk_quick=300):
                            "text": [f"{x:04X}" for x in text], "font_maps": [f"{x:04X}" for x in sorted(cmap)],
                            "script": tag, "shaper": sh, "context": name, "character": f"{c:04X}", "deviation": d,
                            "observed": reply})
-    ctx.note_search(STREAM, n, n, deviations=nbad, deviations_by_oracle_and_shaper=per, distribution=dist,
+    ctx.note_search(STREAM, n, n, deviations=nbad, equivalent_twins=ntwin, deviations_by_oracle_and_shaper=per, distribution=dist,
                     shaper_of_script={t: env.shaper[t] for t in REPRESENTATIVES}, **st, rule=rule)
     return nbad
 
@@ -559,6 +654,10 @@ def search(ctx, shim, env, r, want, keep, judges, rule, bulk_quick=300):
 def replay(shim, rp, judges):
     """re-runs one recorded lattice case and judges it again"""
     env = Env(shim)
+    if rp.get("oracle") == "equivalent-twin":
+        o = vlib.run_groups(shim, [[rp["font_line"], rp["request"], rp["request2"]]], nproc=1)[0]
+        print("text :", o[1]); print("twin :", o[2])
+        return 0 if parse_reply(o[1]) is not None and parse_reply(o[1]) == parse_reply(o[2]) else 1
     o = vlib.run_groups(shim, [[rp["font_line"], rp["request"]]], nproc=1)[0]
     print("reply:", o[1])
     out = parse_reply(o[1])
@@ -578,7 +677,7 @@ def replay(shim, rp, judges):
 
 def judge_own_glyph(env, tag, name, text, out, cmap, adv=None):
     """C16: see own_glyph_deviation"""
-    d = own_glyph_deviation(env.mode(tag), text, out, cmap, adv)
+    d = own_glyph_deviation(env.mode(tag), text, out, cmap, adv, vertical=name.endswith("@t"))
     return ("own-glyph", d) if d else None
 
 
